@@ -636,9 +636,24 @@ def crtf_file(draw, n):
         if gp:
             out.append({'k': 'global', 'props': gp})
     for _ in range(draw(st.integers(1, n))):
-        k = draw(st.sampled_from(['region', 'region', 'region', 'comment',
-                                  'blank']))
-        if k == 'comment':
+        k = draw(st.sampled_from(['region', 'region', 'region', 'region',
+                                  'region', 'comment', 'blank', 'global']))
+        if k == 'global':
+            # a later global line replaces the defaults of an earlier one for
+            # the lines that follow (two files concatenated)
+            gp = []
+            c2 = draw(st.sampled_from([None, 'J2000', 'GALACTIC', 'ICRS',
+                                       'B1950']))
+            if c2 is not None:
+                gp.append(['coord', c2])
+                gcoord = c2
+            for kk, vals in (('color', ['red', 'yellow']), ('linewidth', ['4']),
+                             ('frame', ['TOPO']), ('symsize', ['3'])):
+                if draw(st.booleans()):
+                    gp.append([kk, draw(st.sampled_from(vals))])
+            if gp:
+                out.append({'k': 'global', 'props': gp})
+        elif k == 'comment':
             out.append({'k': 'comment', 'text': 'a comment, coord=ICRS'})
         elif k == 'blank':
             out.append({'k': 'blank'})
